@@ -575,7 +575,10 @@ public:
                                          std::numeric_limits<uint32_t>::max(),
                                        "Tried to allocate an object over 4GB.");
     }
-    auto total_size = static_cast<uint64_t>(sizeof(T)) * count;
+    // The objects live in sandbox memory: what has to fit is their image under
+    // the sandbox's ABI, which may be smaller or larger than sizeof(T)
+    using T_SbxImage = tainted_volatile<T, T_Sbx>;
+    auto total_size = static_cast<uint64_t>(sizeof(T_SbxImage)) * count;
     if constexpr (sizeof(size_t) == 4) {
       // On a 32-bit platform, we need to make sure that total_size is not >=4GB
       detail::dynamic_check(total_size < std::numeric_limits<uint32_t>::max(),
@@ -595,7 +598,8 @@ public:
     }
     detail::dynamic_check(is_pointer_in_sandbox_memory(ptr),
                           "Malloc returned pointer outside the sandbox memory");
-    auto ptr_end = reinterpret_cast<uintptr_t>(ptr + (count - 1));
+    auto ptr_end = reinterpret_cast<uintptr_t>(ptr) +
+                   static_cast<uintptr_t>(sizeof(T_SbxImage)) * (count - 1);
     detail::dynamic_check(
       is_in_same_sandbox(ptr, reinterpret_cast<void*>(ptr_end)),
       "Malloc returned a pointer whose range goes beyond sandbox memory");
